@@ -100,6 +100,9 @@ class Check:
                            'case': f['case'], 'tier': self.tier, 'seed': self.seed}, fh, indent=1, default=repr)
             print('VIOLATION property=%s replay=%s clause=%s tid=%s %s' % (
                 self.pid, path, f['clause'], f['tid'], f.get('desc') or ''))
+        if violations:
+            import collections
+            print('NOTE violations per clause: %s' % dict(collections.Counter(f['clause'] for f in violations)))
         if len(violations) > printed:
             print('NOTE %d further violations not listed (%d in total)' % (len(violations) - printed, len(violations)))
         if self.machinery_errors:
